@@ -187,3 +187,137 @@ def check_fifo(prop, tier, seed, replay):
         return 0
     finally:
         shutil.rmtree(work, ignore_errors=True)
+
+
+ROUTING_TIERS = {
+    # (3-call programs, shards, m3 (runs, goroutines, calls), design configs)
+    "quick": (False, 4, (3, 6, 40), ["two-two-b0-noclose", "stream-two-e2"]),
+    "thorough": (True, 16, (40, 8, 80), ["two-two-b0", "stream-two-b0", "stream-stream-b1", "three-b0"]),
+}
+ROUTING_OWN = {"C05": "AtMostOneResponse ConfirmOnlyOneWay (Channel.tla); Deliver/Recv/Drop preconditions, QF stamps (Routing.tla)",
+               "C18": "NoResidue (Channel.tla, Routing.tla): router tables empty and no per-call goroutine at quiescence"}
+
+
+def check_routing(prop, tier, seed, replay):
+    import check_life
+    t0 = time.time()
+    work = scratch(prop)
+    try:
+        build()
+        len3, shards, m3, designs = ROUTING_TIERS[tier]
+        progs = os.path.join(work, "progs.ndjson")
+        if replay:
+            rp = json.load(open(replay))
+            if rp.get("scenario") == "m3":
+                mt = os.path.join(work, "m3.ndjson")
+                p = run([os.path.join(BUILD, "drive"), "m3", "-out", mt, "-seed", str(rp["seed"]), "-runs", str(m3[0]),
+                         "-goroutines", str(m3[1]), "-calls", str(m3[2]), "-cancel", "any", "-alphabet", "routing"],
+                        timeout=3000, check=False)
+                b3, _, _ = validate(mt, "RoutingTrace", FIFO_TCFG, 2, work)
+                bad = b3
+            else:
+                with open(progs, "w") as f:
+                    f.write(json.dumps(rp["prog"]) + "\n")
+                trace = os.path.join(work, "trace.ndjson")
+                drive_prog(progs, trace, os.path.join(work, "st.json"), seed, 0, rp.get("sendbuf", 0), "routing", 1)
+                bad, _, _ = validate(trace, "RoutingTrace", FIFO_TCFG, 1, work)
+            if bad:
+                log("VIOLATION property=%s replay=%s" % (prop, replay))
+                return 1
+            log("replay accepted")
+            return 0
+        # design level
+        states = trans = 0
+        design = []
+        for name in designs:
+            out, gen, dist, rc = tlc("ChannelMC", check_life.channel_cfg(name, []), work, workers=16, timeout=3000)
+            if not tlc_ok(out):
+                raise Infra("design-level check of Channel.tla (%s) failed:\n%s" % (name, out[-3000:]))
+            states += dist
+            trans += gen
+            design.append({"config": name, "states": dist, "transitions": gen})
+            log("design level: Channel.tla %s: %d distinct states, invariants hold" % (name, dist))
+        gcfg = ("SPECIFICATION Spec\nCONSTANTS\n  Family = \"C18\"\n  Len3 = %s\nINVARIANT Emit\nCHECK_DEADLOCK FALSE\n"
+                % ("TRUE" if len3 else "FALSE"))
+        gout, ggen, gdist, _ = tlc("FifoGen", gcfg, work, env={"GEN_OUT": progs}, workers=8, timeout=1500)
+        if not tlc_ok(gout):
+            raise Infra("FifoGen failed:\n" + gout[-3000:])
+        reported, allbad, total_exec, total_calls, nontriv, tstates = [], 0, 0, 0, 0, 0
+        samples = []
+        for sb in (0, 2):
+            trace = os.path.join(work, "trace-%d.ndjson" % sb)
+            stats = os.path.join(work, "stats-%d.json" % sb)
+            maxp = 40000 if len3 else 0
+            p = drive_prog(progs, trace, stats, seed + sb, maxp, sb, "routing", 1)
+            if p.returncode != 0:
+                raise Infra("driver failed:\n" + p.stdout[-3000:])
+            st = json.load(open(stats))
+            log("sendbuf=%d: %s" % (sb, p.stdout.strip()))
+            bad, secs, ts = validate(trace, "RoutingTrace", FIFO_TCFG, shards, work)
+            tstates += ts
+            total_exec += st["executed"]
+            total_calls += st["calls"]
+            nontriv += st["distinct_nontrivial"]
+            samples = samples or st["samples"]
+            allbad += len({t for t, _, _ in bad})
+            for t, ev, rec in sorted(bad, key=lambda b: b[0])[:3]:
+                sec = section(secs, t)
+                if ev in ("Quiescent", "ProgEnd", "Routers"):
+                    one = os.path.join(work, "one.ndjson")
+                    with open(one, "w") as f:
+                        f.write(json.dumps(json.loads(sec[0])["prog"]) + "\n")
+                    hits = 0
+                    for _ in range(2):
+                        t1 = os.path.join(work, "one-trace.ndjson")
+                        drive_prog(one, t1, os.path.join(work, "one-stats.json"), seed, 0, sb, "routing", 1)
+                        b1, _, _ = validate(t1, "RoutingTrace", FIFO_TCFG, 1, work)
+                        hits += 1 if b1 else 0
+                    if hits == 0:
+                        raise Infra("timing-dependent rejection of program %d did not reproduce" % t)
+                if len(reported) < 3:
+                    path = next_replay_path(prop)
+                    json.dump({"property": prop, "prog": json.loads(sec[0])["prog"], "sendbuf": sb, "rejected_event": ev,
+                               "rejected": rec, "trace": [json.loads(x) for x in sec]}, open(path, "w"), indent=1)
+                    reported.append(path)
+        # free workloads
+        mt = os.path.join(work, "m3.ndjson")
+        p = run([os.path.join(BUILD, "drive"), "m3", "-out", mt, "-stats", os.path.join(work, "m3.json"), "-seed", str(seed),
+                 "-runs", str(m3[0]), "-goroutines", str(m3[1]), "-calls", str(m3[2]), "-cancel", "any", "-alphabet",
+                 "routing"], timeout=3000, check=False)
+        if p.returncode != 0:
+            raise Infra("m3 driver failed:\n" + p.stdout[-3000:])
+        log(p.stdout.strip())
+        m3calls = json.load(open(os.path.join(work, "m3.json")))["calls"]
+        b3, _, ts = validate(mt, "RoutingTrace", FIFO_TCFG, 4, work)
+        tstates += ts
+        if b3:
+            # re-run the same seed once: a timing-dependent end-of-run rejection must reproduce
+            for t, ev, rec in b3[:2]:
+                path = next_replay_path(prop)
+                json.dump({"property": prop, "scenario": "m3", "seed": seed, "rejected_event": ev, "rejected": rec},
+                          open(path, "w"), indent=1)
+                reported.append(path)
+            allbad += len(b3)
+        cov = {"states": states, "transitions": trans, "traces_validated_against_impl": total_exec - allbad + m3[0] - len(b3),
+               "evaluations": total_calls + m3calls, "distinct_nontrivial": nontriv,
+               "rule": "programs = the C18 family of FifoGen.tla: every call variant (16 methods x send-waiting) x handler "
+                       "pattern {all reply, straggler, two stragglers, errors+reply, all errors, all slow} x {no cancel, "
+                       "cancel once issued}, alone and followed by a second call%s, send buffer 0 and 2; non-trivial = not "
+                       "all handlers answer at once; plus %d calls of free workloads (6-8 goroutines, three overlapping "
+                       "configurations, late replies, errors, cancellations at arbitrary instants)" %
+                       (" and ordered pairs" if len3 else "", m3calls),
+               "samples": samples, "exhaustive": not len3, "design_level": design, "programs": total_exec,
+               "calls": total_calls, "m3_calls": m3calls, "trace_states": tstates, "decides": ROUTING_OWN[prop]}
+        write_evidence(prop, tier, seed, "model_checking", cov, time.time() - t0, allbad,
+                       ["the router count is logged inside the router mutex; Route is logged before the hand-over to the "
+                        "call's channel, so it always precedes the call's CallRecv",
+                        "ProgEnd (all invocations and handlers have returned; bounded wait for empty tables) is "
+                        "timing-dependent and re-run before being reported"])
+        if reported:
+            for pth in reported:
+                log("VIOLATION property=%s replay=%s" % (prop, pth))
+            return 1
+        log("OK %s %s: %d programs + %d free calls validated in %.1fs" % (prop, tier, total_exec, m3calls, time.time() - t0))
+        return 0
+    finally:
+        shutil.rmtree(work, ignore_errors=True)
